@@ -144,10 +144,13 @@ TObs ==
     /\ IsEvent("Obs")
     /\ lagging' = IF Turned(E) /\ E.obs.state = "ReadyToSign" /\ E.obs.data_epoch < E.obs.state_epoch
                   THEN lagging \cup {E.obs.state_epoch} ELSE lagging
-    /\ StepOk(prev, E)
-    /\ ObsInv(E.obs)
-    /\ (\E i \in New(prev, E.obs) : ~(EpochKey(E.obs, E.obs.sigs[i]) /\ Accepted(E.obs, E.obs.sigs[i]))) => KnownFor(TurnFinding)
     /\ prev' = E.obs
+    \* (compared with TRUE so that TLC evaluates the clauses as one expression instead of enumerating the
+    \*  witnesses of their quantifiers as separate successors)
+    /\ (/\ StepOk(prev, E)
+        /\ ObsInv(E.obs)
+        /\ (\E i \in New(prev, E.obs) : ~(EpochKey(E.obs, E.obs.sigs[i]) /\ Accepted(E.obs, E.obs.sigs[i])))
+               => KnownFor(TurnFinding)) = TRUE
 
 (* (g) resumes correctly: after the fault-free epilogue the harness appends to every schedule (three epochs in   *)
 (*     which the signer just runs), the aggregator has an acceptable signature for the last epoch                *)
